@@ -173,7 +173,7 @@ def _e1(pid, tier, seed, tag="e1", cap=None, **kw):
     exe, bs, err = C.build_symlift()
     if exe is None:
         return None, err
-    cap = cap or (300 if tier == "quick" else 900)
+    cap = cap or (300 if tier == "quick" else 1800)
     return E1(pid, tier, seed, cap, exe, tag=tag, **kw), None
 
 
@@ -189,11 +189,13 @@ def lens_quick():
 
 
 def lens_thorough():
+    """every n <= 200, plus structured larger lengths whose largest prime factor stays <= 131 (a Rader or
+    Bluestein stage over a prime above ~260 does not decide within the cap: measured 'unknown' after 900 s
+    for n = 419, 433, 505 under full load)"""
     ns = set(range(0, 201))
-    # structured larger lengths: powers, smooth numbers, Rader vs Bluestein primes, p^2, p*q, neighbours of powers of two
-    ns |= {216, 240, 243, 250, 255, 256, 257, 288, 320, 343, 360, 384, 400, 432, 480, 486, 500, 512, 513, 511, 576, 625, 640, 720, 729, 768, 1000, 1024}
-    ns |= {211, 223, 227, 229, 233, 239, 241, 251, 263, 269, 283, 307, 331, 337, 347, 359, 383, 401, 419, 433, 449}
-    ns |= {289, 361, 17 * 19, 13 * 37, 3 * 127, 2 * 257, 5 * 101}
+    ns |= {216, 240, 243, 250, 255, 256, 288, 320, 343, 360, 384, 400, 432, 480, 486, 500, 512, 576, 625, 640, 720, 729, 768, 1000, 1024}
+    ns |= {211, 223, 227, 229, 233, 239, 241, 251, 257, 263}
+    ns |= {289, 361, 17 * 19, 13 * 37, 2 * 127, 2 * 131, 3 * 101, 4 * 59, 6 * 43, 8 * 29, 11 * 31, 23 * 29}
     return sorted(ns)
 
 
@@ -231,7 +233,7 @@ def check_c06(pid, tier, seed, only):
     if tier == "quick":
         ns = list(range(1, 65)) + [96, 100, 120, 128, 243, 256]
     else:
-        ns = sorted(set(range(1, 201)) | {240, 243, 250, 255, 256, 257, 288, 320, 343, 360, 384, 400, 480, 500, 512, 625, 640, 720, 729, 768, 1000, 1024})
+        ns = sorted(set(range(1, 161)) | {180, 192, 200, 216, 240, 243, 250, 256, 288, 320, 343, 360, 384, 400, 480, 500, 512, 625, 640, 720, 729, 768, 1000, 1024})
     specs = [f"c06:n={n}" for n in ns] + [f"c06:n={n}:planner=scalar" for n in (1, 2, 7, 30, 37, 59, 64)]
     res, _ = _simple_e1(pid, tier, seed, only, specs,
                         "one planner plans both directions (both planning orders): inv(fwd(x)) = n*x, fwd(inv(x)) = n*x, inv(x) = conj(fwd(conj x)) for all x; oracle-free, both sides are symbolic executions",
@@ -270,7 +272,7 @@ def check_c07(pid, tier, seed, only):
 
 
 def check_c08_e1(pid, tier, seed, only, res=None):
-    ns = lens_quick() if tier == "quick" else sorted(set(range(0, 201)) | {243, 255, 256, 257, 263, 283, 289, 320, 359, 360, 383, 384, 479, 503, 512})
+    ns = lens_quick() if tier == "quick" else sorted(set(range(0, 161)) | {180, 192, 200, 243, 255, 256, 257, 289, 320, 360, 384, 512})
     specs = [f"c08:n={n}:dir={d}" for n in ns for d in ("fwd", "inv")]
     return _simple_e1(pid, tier, seed, only, specs,
                       "scratch of exactly the advertised length, +1, +17 and x2, initial scratch and output contents symbolic: out == DFT(x) for all x AND all scratch/output contents, three explicit-scratch entry points",
@@ -328,7 +330,7 @@ def check_c10(pid, tier, seed, only):
 
 
 def check_c14(pid, tier, seed, only):
-    ns = (list(range(0, 41)) + [59, 64, 100, 127, 128]) if tier == "quick" else lens_thorough()[:300]
+    ns = (list(range(0, 41)) + [59, 64, 100, 127, 128]) if tier == "quick" else [n for n in lens_thorough() if n <= 512]
     specs = [f"c14:n={n}:dir={d}" for n in ns for d in ("fwd", "inv")]
     res, e1 = _simple_e1(pid, tier, seed, only, specs,
                          "element type Sym (16 bytes, neither f32 nor f64): every SIMD planner declines (native fact per obligation), FftPlanner::<Sym> falls back to portable code that only uses ring operations and from_f64/from_usize constants (anything else aborts the symbolic run) and equals the DFT exactly for all inputs",
@@ -391,6 +393,37 @@ QUICK_E2 = {
 }
 
 
+def hs_(units, names):
+    return [f"h_sse::{u}::{n}" for u in units for n in names]
+
+
+# SSE kernels (cargo feature "sse" of the harness crate; arithmetic intrinsics replaced by lane-wise scalar models)
+QUICK_SSE = {
+    "C03": hs_(["sse_f32_bf2"], ["ps_mem_k3_for", "oop_mem_k3_for"]) + hs_(["sse_f32_bf4"], ["oop_mem_k3_for"]) + hs_(["sse_f64_bf3"], ["imm_mem_k2_for"]) + hs_(["sse_f32_bf3"], ["oop_ill"]) + hs_(["sse_f64_bf2"], ["imm_ill"]),
+    "C07": hs_(["sse_f32_bf2"], ["ps_iso_k3", "oop_iso_k3", "imm_iso_k3"]) + hs_(["sse_f32_bf4"], ["ps_iso_k2"]) + hs_(["sse_f64_bf2"], ["oop_iso_k3"]),
+    "C15": hs_(["sse_f32_bf2", "sse_f32_bf4"], ["imm_mem_k3_for"]) + hs_(["sse_f64_bf4"], ["imm_mem_k2_for"]) + hs_(["sse_f32_bf3"], ["imm_iso_k2"]),
+    "C09": hs_(["sse_f32_bf2"], ["ps_ill", "oop_ill", "imm_ill"]) + hs_(["sse_f64_bf4"], ["oop_ill"]),
+}
+SSE_TITLE = "SSE kernels (f32/f64 hand-written and prime butterflies, via the verif-hooks re-export): exact-size caller buffers, every vector load/store in bounds incl. the two-chunks-at-a-time path and its odd tail; 2-safety non-interference between chunks (same call twice with independent arbitrary contents of the other chunks: bit-identical outputs); immutable input bit-identical to its snapshot; ill-shaped calls panic on every path"
+SSE_BOUNDS = {"kernels": "SseF32/F64Butterfly{1,2,3,4,5,6,8,9,10,12,15,16,24,32} and prime butterflies {7,...,31}", "chunk_counts": "1..3 (n <= 16), 1..2 above", "data": "concrete (memory-safety harnesses) / symbolic finite floats |v| <= 1024 for the other chunks (isolation harnesses)", "stubs": "_mm_{add,sub,mul,addsub}_{ps,pd} replaced by lane-wise scalar IEEE models (Kani 0.68's simd overflow check fails on every float vector and assumes the rest away)"}
+
+
+def run_sse(res, pid, tier, seed, only, pred):
+    e2 = _e2(pid, tier, seed, features=["sse"])
+    if tier == "quick":
+        hs = [h for h in QUICK_SSE.get(pid, []) if h in e2.table]
+    else:
+        tm = timings()
+        extra = [h for h, m in e2.table.items() if m.get("group") == "sse" and pred(m) and isinstance(tm.get(h), (int, float)) and tm[h] <= 300]
+        hs = sorted(set([h for h in QUICK_SSE.get(pid, []) if h in e2.table] + extra))
+    hs = _filter(hs, only)
+    if not hs:
+        return None
+    s = e2.run(hs, cost=e2_cost(e2.table), batch=3)
+    res.add_e2(SSE_TITLE, e2, s, dict(SSE_BOUNDS, harnesses=len(hs), per_harness_timeout_s=e2.timeout))
+    return e2
+
+
 def run_e2(res, pid, tier, seed, only, pred, title, bounds, **kw):
     e2 = _e2(pid, tier, seed, **kw)
     if tier == "quick":
@@ -403,7 +436,7 @@ def run_e2(res, pid, tier, seed, only, pred, title, bounds, **kw):
         # (kshape/timings.json, measured under full machine load); the rest of the 1005 generated
         # harnesses has never been shown to finish and is listed as outside the bound
         tm = timings()
-        extra = [h for h in select(e2.table, pred) if isinstance(tm.get(h), (int, float)) and tm[h] <= 150]
+        extra = [h for h in select(e2.table, lambda m: m.get("group") != "sse" and pred(m)) if isinstance(tm.get(h), (int, float)) and tm[h] <= 150]
         hs = sorted(set([h for h in QUICK_E2[pid] if h in e2.table] + extra))
         res.outside.append(f"{len(select(e2.table, pred)) - len(hs)} generated harnesses of this property not run: no measurement that they decide under the cap")
     hs = _filter(hs, only)
@@ -454,7 +487,8 @@ def check_c15(pid, tier, seed, only):
     run_e2(res, pid, tier, seed, only, lambda m: m["kind"] == "well" and m["entry"] == "imm",
            "process_immutable_with_scratch leaves every input element unchanged (Tag snapshot comparison) for every symbolic scratch length and inner-scratch need; also nothing outside the caller slices is written",
            W_BOUNDS)
-    res.outside += ["calls that end in a panic (Kani cannot observe state after a panic)", "SSE/AVX kernels and planned SIMD transforms (f32/f64 only; Kani cannot compile the AVX intrinsics)"]
+    run_sse(res, pid, tier, seed, only, lambda m: m["entry"] == "imm" and m["kind"] == "well")
+    res.outside += ["calls that end in a panic (Kani cannot observe state after a panic)", "AVX kernels and planned SIMD transforms (Kani cannot compile the AVX intrinsics); SseRadix4 (its constructor runs CPUID detection)"]
     return res
 
 
@@ -463,7 +497,8 @@ def check_c03(pid, tier, seed, only):
     run_e2(res, pid, tier, seed, only, lambda m: True,
            "every pointer dereference / get_unchecked / copy in bounds of its object for well-shaped calls (exact-size buffers) and ill-shaped calls (exact-size heap objects of every symbolic length); ill-shaped calls end in a documented panic on every path",
            W_BOUNDS)
-    res.outside += ["planners; SSE/AVX kernels (f32/f64 only; Kani cannot compile the AVX intrinsics)", "lengths above the listed units", "transpose::transpose (dependency) is replaced by a model with checked indexing"]
+    run_sse(res, pid, tier, seed, only, lambda m: m.get("mode") in ("mem", "ill"))
+    res.outside += ["planners; AVX kernels (Kani cannot compile the AVX intrinsics); SseRadix4 (constructor runs CPUID detection)", "lengths above the listed units", "transpose::transpose (dependency) is replaced by a model with checked indexing"]
     return res
 
 
@@ -472,7 +507,8 @@ def check_c09(pid, tier, seed, only):
     run_e2(res, pid, tier, seed, only, lambda m: m["kind"] == "ill" or m["group"] == "helper" or (m["kind"] == "well" and m["k"] == 1),
            "well-shaped calls never panic and visit every chunk; every ill-shaped call (length not a multiple of n, input/output lengths differ, scratch short) panics on every path (cover after the call unreachable); the validators return Err exactly for ill-shaped arguments and fft_error_* panics for every rejected tuple",
            W_BOUNDS)
-    res.outside += ["planned SIMD transforms", "fft_error_* arguments above 2^16"]
+    run_sse(res, pid, tier, seed, only, lambda m: m["kind"] == "ill")
+    res.outside += ["planned SIMD transforms; AVX kernels", "fft_error_* arguments above 2^16"]
     return res
 
 
@@ -647,7 +683,8 @@ def check_c07_full(pid, tier, seed, only):
         run_e2(res, pid, tier, seed, only, lambda m: (m["kind"] == "well" and m["k"] >= 2) or "unroll2x" in m["unit"],
                "chunk isolation by taint: after a k-chunk call every output element carries exactly the tag of its own chunk (no other chunk, no stale scratch/output value); the 2x-unrolled validators visit every chunk exactly once including the odd tail",
                W_BOUNDS)
-    res.outside += ["SSE/AVX kernels' two-chunks-at-a-time paths (f32/f64 only): only the shared *_unroll2x validators they rely on are decided"]
+    run_sse(res, pid, tier, seed, only, lambda m: m.get("mode") == "iso")
+    res.outside += ["AVX kernels; SSE kernels above length 6 for the isolation (2-safety) harnesses"]
     return res
 
 
